@@ -8,8 +8,10 @@ import (
 	"os"
 	"os/exec"
 	"path/filepath"
+	"runtime"
 	"sort"
 	"strings"
+	"sync"
 	"time"
 
 	"github.com/shopspring/decimal"
@@ -336,6 +338,8 @@ func runC04(c *Ctx) {
 	bt.Flush()
 	// `knut balance` under full flag vectors: the exit status is the specification's verdict whatever the report shows
 	runC04BalFlags(c)
+	// shared registries under concurrent look-ups; journals dealt over many include files, loaded repeatedly
+	runC04Concur(c)
 	runC04Trees(c)
 }
 
@@ -1213,6 +1217,481 @@ func runC04BalFlags(c *Ctx) {
 					}
 				}, "c04mon", tc.wire, cv, "-")
 			}
+		}
+	}
+}
+
+// ---------------------------------------------------------------- streams "regrace" and "multifile"
+//
+// The checker keeps ONE running quantity per account and commodity, and accounts and commodities are compared by
+// identity: the verdict is the specification's only if every mention of a name, in whatever file and on whatever
+// goroutine of the loader it is converted, yields the same value.  The loader converts every file of a journal on a
+// goroutine of its own against shared registries, so this is a statement about schedules, which single-file journals and
+// the (mostly sequentially arriving) members of the include trees never exercise.
+//
+//   - "regrace": fresh commodity and account registries per round; 2-32 goroutines, released together by closing a
+//     channel after all of them have reported ready, ask for the same small set of names (1-4 commodities, 0-4 accounts,
+//     nested ones that share parents, bare roots) through Get / MustGet / GetPath, each in an order of its own (same,
+//     rotated, reversed, shuffled), some names registered beforehand (control), with or without a yield after the
+//     barrier, under GOMAXPROCS default / 2 / 4 / 8.  Statement: every caller gets the identical value per name, it is the
+//     value a later look-up returns, and no look-up of a valid name fails.  A case is 100 rounds (2 000 in a replay: the
+//     schedule is not a function of the input).
+//   - "multifile": a ledger / re-open / timeline journal (reshaped accounts as everywhere) dealt over 8-16 (thorough -32)
+//     include files (round robin, uniformly, by kind of directive, by account), two cases in three with the same price
+//     directives at the head of every member so that all members first mention the same commodities at the same moment;
+//     assertions end up in other files than the bookings they are about.  Loaded 8 times (80 in a replay) through
+//     journal.FromPath with fresh registries under GOMAXPROCS default / 2 / 4 / 16.  Statements: in the loaded journal
+//     every account / commodity name stands for one value, and the verdict of check.Check is the Lean specification's
+//     verdict on the union of the directives (`c04mon`).
+//
+// (Seeded change C04-k moved the allocation in commodity.Registry.Get in front of the write lock and dropped the second
+// look-up under it: two goroutines that both miss get a commodity of their own for the same name.)
+
+var c04RaceComs = []string{"CHF", "USD", "AAPL", "X", "Y", "EUR", "BTC", "A1", "Ünï", "日本", "VWRL", "x"}
+var c04RaceAccs = []string{"Assets:Bank", "Assets:Bank:Savings", "Assets:Bank:Savings:2024", "Assets", "Liabilities", "Liabilities:Card", "Equity:Opening", "Expenses:Food", "Expenses:TBD", "Income:Salary", "Income:Bank", "Assets:A", "Assets:A:Sub", "Assets:Ax", "Equity"}
+
+type c04RaceReq struct {
+	kind byte // 'c' commodity, 'a' account by name, 'p' account by path
+	name string
+}
+
+func runC04Concur(c *Ctx) {
+	t0 := time.Now()
+	defer func() { c.Extra["concur_wall_s"] = fmt.Sprintf("%.1f", time.Since(t0).Seconds()) }()
+	c04RegRace(c)
+	c04MultiFile(c)
+}
+
+func c04Distinct(r *RNG, pool []string, k int) []string {
+	var res []string
+	for len(res) < k {
+		n := Pick(r, pool)
+		if !contains(res, n) {
+			res = append(res, n)
+		}
+	}
+	return res
+}
+
+func c04RegRace(c *Ctx) {
+	n := c.N(300, 4000)
+	for i := 0; i < n; i++ {
+		if !c.Want("regrace", i) {
+			continue
+		}
+		r := c.Rng("regrace", i)
+		rounds := 100
+		if c.Replay {
+			rounds = 2000
+		}
+		var reqs []c04RaceReq
+		for _, nm := range c04Distinct(r, c04RaceComs, r.Range(1, 4)) {
+			reqs = append(reqs, c04RaceReq{'c', nm})
+		}
+		pathAPI := r.Chance(1, 3)
+		for _, nm := range c04Distinct(r, c04RaceAccs, r.Range(0, 4)) {
+			k := byte('a')
+			if pathAPI && r.Bool() {
+				k = 'p'
+			}
+			reqs = append(reqs, c04RaceReq{k, nm})
+		}
+		// (accounts first, commodities first or mixed)
+		switch r.Intn(3) {
+		case 0:
+			sort.SliceStable(reqs, func(a, b int) bool { return reqs[a].kind != 'c' && reqs[b].kind == 'c' })
+		case 1:
+			for k := len(reqs) - 1; k > 0; k-- {
+				q := r.Intn(k + 1)
+				reqs[k], reqs[q] = reqs[q], reqs[k]
+			}
+		}
+		g := Pick(r, []int{2, 2, 3, 4, 8, 16, 32})
+		orderKind := Pick(r, []string{"same", "same", "rotated", "reversed-odd", "shuffled"})
+		orders := make([][]int, g)
+		for w := range orders {
+			o := make([]int, len(reqs))
+			for k := range o {
+				o[k] = k
+			}
+			switch orderKind {
+			case "rotated":
+				for k := range o {
+					o[k] = (k + w) % len(reqs)
+				}
+			case "reversed-odd":
+				if w%2 == 1 {
+					for a, b := 0, len(o)-1; a < b; a, b = a+1, b-1 {
+						o[a], o[b] = o[b], o[a]
+					}
+				}
+			case "shuffled":
+				for k := len(o) - 1; k > 0; k-- {
+					q := r.Intn(k + 1)
+					o[k], o[q] = o[q], o[k]
+				}
+			}
+			orders[w] = o
+		}
+		var warm []int // registered before the barrier (control)
+		if r.Chance(1, 4) {
+			for k := range reqs {
+				if r.Chance(1, 3) {
+					warm = append(warm, k)
+				}
+			}
+		}
+		must := r.Chance(1, 4)
+		yield := r.Chance(1, 3)
+		procs := Pick(r, []int{0, 0, 0, 2, 4, 8})
+		var names []string
+		for _, q := range reqs {
+			names = append(names, string(q.kind)+":"+q.name)
+		}
+		in := map[string]any{"requests": names, "goroutines": g, "orders": orderKind, "registered_before": warm, "must_get": must, "yield": yield, "gomaxprocs": procs, "rounds": rounds,
+			"how": "fresh registry.New() per round; every goroutine waits for the close of one channel, then asks reg.Commodities().Get / reg.Accounts().Get / GetPath for the requests in its order"}
+		c.Evals++
+		get := func(reg *registry.Registry, q c04RaceReq) (res any, err error) {
+			defer func() {
+				if p := recover(); p != nil {
+					err = fmt.Errorf("panic: %v", p)
+				}
+			}()
+			switch q.kind {
+			case 'c':
+				if must {
+					return reg.Commodities().MustGet(q.name), nil
+				}
+				return reg.Commodities().Get(q.name)
+			case 'p':
+				return reg.Accounts().GetPath(strings.Split(q.name, ":"))
+			}
+			if must {
+				return reg.Accounts().MustGet(q.name), nil
+			}
+			return reg.Accounts().Get(q.name)
+		}
+		old := 0
+		if procs > 0 {
+			old = runtime.GOMAXPROCS(procs)
+		}
+		fail := ""
+		failRound := -1
+		for rd := 0; rd < rounds && fail == ""; rd++ {
+			reg := registry.New()
+			for _, k := range warm {
+				get(reg, reqs[k])
+			}
+			got := make([][]any, g)
+			errs := make([][]error, g)
+			start := make(chan struct{})
+			var ready, done sync.WaitGroup
+			ready.Add(g)
+			done.Add(g)
+			for w := 0; w < g; w++ {
+				w := w
+				got[w], errs[w] = make([]any, len(reqs)), make([]error, len(reqs))
+				go func() {
+					defer done.Done()
+					ready.Done()
+					<-start
+					if yield && w%2 == 0 {
+						runtime.Gosched()
+					}
+					for _, k := range orders[w] {
+						got[w][k], errs[w][k] = get(reg, reqs[k])
+					}
+				}()
+			}
+			ready.Wait()
+			close(start)
+			done.Wait()
+			for k, q := range reqs {
+				after, err := get(reg, q)
+				if err != nil {
+					fail = fmt.Sprintf("look-up of %s %q after the round fails: %v", string(q.kind), q.name, err)
+					break
+				}
+				for w := 0; w < g && fail == ""; w++ {
+					if errs[w][k] != nil {
+						fail = fmt.Sprintf("goroutine %d: look-up of %q fails: %v", w, q.name, errs[w][k])
+					} else if got[w][k] != after {
+						{
+							fail = fmt.Sprintf("%q: goroutine %d of %d holds a value (%p) that is not the one the registry returns afterwards (%p): a booking converted on that goroutine and an assertion converted on another one refer to different positions of the checker", q.name, w, g, got[w][k], after)
+						}
+					}
+				}
+				if fail != "" {
+					break
+				}
+			}
+			if fail != "" {
+				failRound = rd
+			}
+		}
+		if procs > 0 {
+			runtime.GOMAXPROCS(old)
+		}
+		for _, q := range reqs {
+			c.Tag("regrace:kind:" + string(q.kind))
+		}
+		c.Class(fmt.Sprintf("c04/regrace/g%d/%s/req%d/warm%s/must%s/yield%s/procs%d/path%s", g, orderKind, len(reqs), b2s(len(warm) > 0), b2s(must), b2s(yield), procs, b2s(pathAPI)))
+		if i < 1 {
+			c.Sample(map[string]any{"stream": "regrace", "input": in, "failed": fail})
+		}
+		detail := ""
+		if fail != "" {
+			detail = fmt.Sprintf("round %d of %d: %s", failRound, rounds, fail)
+		}
+		c.Monitor("regrace", i, "registry_one_value_per_name", in, fail == "", detail)
+	}
+}
+
+// c04NameValues collects, for every account and commodity name of the loaded journal, the distinct values that stand for it.
+func c04NameValues(jn *journal.Journal) (string, int) {
+	coms := map[string]map[any]bool{}
+	accs := map[string]map[any]bool{}
+	add := func(m map[string]map[any]bool, name string, v any) {
+		if m[name] == nil {
+			m[name] = map[any]bool{}
+		}
+		m[name][v] = true
+	}
+	mentions := 0
+	for _, d := range jn.Days {
+		for _, p := range d.Prices {
+			add(coms, p.Commodity.Name(), p.Commodity)
+			add(coms, p.Target.Name(), p.Target)
+			mentions += 2
+		}
+		for _, o := range d.Openings {
+			add(accs, o.Account.Name(), o.Account)
+			mentions++
+		}
+		for _, o := range d.Closings {
+			add(accs, o.Account.Name(), o.Account)
+			mentions++
+		}
+		for _, a := range d.Assertions {
+			for _, b := range a.Balances {
+				add(accs, b.Account.Name(), b.Account)
+				add(coms, b.Commodity.Name(), b.Commodity)
+				mentions += 2
+			}
+		}
+		for _, t := range d.Transactions {
+			for _, p := range t.Postings {
+				add(accs, p.Account.Name(), p.Account)
+				add(accs, p.Other.Name(), p.Other)
+				add(coms, p.Commodity.Name(), p.Commodity)
+				mentions += 3
+			}
+		}
+	}
+	var bad []string
+	for n, vs := range coms {
+		if len(vs) > 1 {
+			bad = append(bad, fmt.Sprintf("commodity %q stands for %d distinct values", n, len(vs)))
+		}
+	}
+	for n, vs := range accs {
+		if len(vs) > 1 {
+			bad = append(bad, fmt.Sprintf("account %q stands for %d distinct values", n, len(vs)))
+		}
+	}
+	sort.Strings(bad)
+	return strings.Join(bad, "; "), mentions
+}
+
+func c04MultiFile(c *Ctx) {
+	n := c.N(120, 1200)
+	dir := filepath.Join(c.WorkDir, "c04", "multifile")
+	defer os.RemoveAll(dir)
+	for i := 0; i < n; i++ {
+		if !c.Want("multifile", i) {
+			continue
+		}
+		r := c.Rng("multifile", i)
+		var j *Journal
+		var tags []string
+		gen := "ledger"
+		switch r.Intn(5) {
+		case 0:
+			j, tags = c04ReopenJournal(r)
+			gen = "reopen"
+		case 1:
+			j, tags = c04TimelineJournal(r)
+			gen = "timeline"
+		default:
+			j, tags = c04LedgerJournal(r)
+		}
+		tags = append(tags, c04Reshape(r, j)...)
+		k := r.Range(8, 16)
+		if c.Thorough() && r.Chance(1, 4) {
+			k = r.Range(17, 32)
+		}
+		deal := Pick(r, []string{"round-robin", "uniform", "by-kind", "by-account"})
+		files := make([][]JDir, k+1) // 0: the root
+		accIdx := map[string]int{}
+		for q, d := range j.Dirs {
+			f := 0
+			switch deal {
+			case "round-robin":
+				f = 1 + q%k
+			case "uniform":
+				f = r.Intn(k + 1)
+			case "by-kind": // accounts file(s), transactions spread, assertions and closes elsewhere
+				switch d.Kind {
+				case 'o':
+					f = 1 + r.Intn(2)
+				case 'a':
+					f = k - r.Intn(2)
+				case 'c':
+					f = k - 2
+				case 'p':
+					f = 3
+				default:
+					f = 1 + r.Intn(k)
+				}
+			default: // the bookings of an account in one file, what is asserted about it in the next one
+				a := d.Account
+				if d.Kind == 't' && len(d.Bookings) > 0 {
+					a = d.Bookings[0].Debit
+				} else if d.Kind == 'a' && len(d.Balances) > 0 {
+					a = d.Balances[0].Account
+				}
+				if _, ok := accIdx[a]; !ok {
+					accIdx[a] = len(accIdx)
+				}
+				f = 1 + (2*accIdx[a])%k
+				if d.Kind == 'a' || d.Kind == 'c' {
+					f = 1 + (2*accIdx[a]+1)%k
+				}
+			}
+			files[f] = append(files[f], d)
+		}
+		// the same first mentions at the head of every member
+		head := "none"
+		if r.Chance(2, 3) {
+			head = "prices"
+			_, coms := journalNames(j)
+			day := 737000
+			if len(j.Dirs) > 0 {
+				day = j.Dirs[0].Date
+			}
+			var pre []JDir
+			for _, cm := range coms {
+				if cm != "CHF" {
+					pre = append(pre, JDir{Kind: 'p', Date: day, Com: cm, Price: "1.5", Target: "CHF"})
+				}
+			}
+			if len(pre) == 0 {
+				pre = append(pre, JDir{Kind: 'p', Date: day, Com: "USD", Price: "0.9", Target: "CHF"})
+			}
+			for f := 1; f <= k; f++ {
+				files[f] = append(append([]JDir{}, pre...), files[f]...)
+			}
+		}
+		incPos := Pick(r, []string{"top", "top", "bottom", "scattered"})
+		os.RemoveAll(dir)
+		os.MkdirAll(dir, 0o755)
+		union := &Journal{Dirs: append([]JDir{}, files[0]...)}
+		texts := map[string]string{}
+		var root strings.Builder
+		rootDirs := files[0]
+		if incPos == "bottom" {
+			for _, d := range rootDirs {
+				root.WriteString(d.Text() + "\n")
+			}
+			rootDirs = nil
+		}
+		for f := 1; f <= k; f++ {
+			name := fmt.Sprintf("m%02d.knut", f)
+			root.WriteString("include \"" + name + "\"\n\n")
+			if incPos == "scattered" && len(rootDirs) > 0 && r.Bool() {
+				root.WriteString(rootDirs[0].Text() + "\n")
+				rootDirs = rootDirs[1:]
+			}
+			m := &Journal{Dirs: files[f]}
+			t, _ := m.Text()
+			texts[name] = t
+			union.Dirs = append(union.Dirs, files[f]...)
+			if err := os.WriteFile(filepath.Join(dir, name), []byte(t), 0o644); err != nil {
+				fatalf("%v", err)
+			}
+		}
+		for _, d := range rootDirs {
+			root.WriteString(d.Text() + "\n")
+		}
+		texts["main.knut"] = root.String()
+		rootPath := filepath.Join(dir, "main.knut")
+		if err := os.WriteFile(rootPath, []byte(root.String()), 0o644); err != nil {
+			fatalf("%v", err)
+		}
+		wire := union.Wire()
+		procs := Pick(r, []int{0, 0, 2, 4, 16})
+		loads := 8
+		if c.Replay {
+			loads = 80
+		}
+		in := map[string]any{"files": texts, "wire": wire, "gomaxprocs": procs, "loads": loads, "how": "journal.FromPath(main.knut) with a fresh registry.New(), Build(), Process(check.Check())"}
+		c.Evals++
+		for _, t := range tags {
+			c.Tag(t)
+		}
+		c.Tag("multifile:deal:" + deal)
+		c.Tag("multifile:head:" + head)
+		old := 0
+		if procs > 0 {
+			old = runtime.GOMAXPROCS(procs)
+		}
+		verdicts := map[string]string{}
+		split := ""
+		for l := 0; l < loads; l++ {
+			func() {
+				defer func() {
+					if p := recover(); p != nil {
+						verdicts["panic"] = fmt.Sprint(p)
+					}
+				}()
+				reg := registry.New()
+				b, err := journal.FromPath(context.Background(), reg, rootPath)
+				if err != nil {
+					verdicts["load-error"] = err.Error()
+					return
+				}
+				jn := b.Build()
+				if s, _ := c04NameValues(jn); s != "" && split == "" {
+					split = fmt.Sprintf("load %d of %d: %s", l, loads, s)
+				}
+				if err := jn.Process(check.Check()); err != nil {
+					verdicts["error"] = err.Error()
+				} else {
+					verdicts["ok"] = ""
+				}
+			}()
+		}
+		if procs > 0 {
+			runtime.GOMAXPROCS(old)
+		}
+		c.Monitor("multifile", i, "loaded_journal_one_value_per_name", in, split == "", split+": the checker keeps one position per account and commodity VALUE")
+		var vs []string
+		for v := range verdicts {
+			vs = append(vs, v)
+		}
+		sort.Strings(vs)
+		for _, v := range vs {
+			mon := c.Drv.Ask("c04mon", wire, v, "-")
+			switch {
+			case v != "panic" && (mon == "ok" || strings.HasPrefix(mon, "known ")):
+				c.Monitored++
+			default:
+				c.Monitor("multifile", i, "multifile_accept_iff_wellformed", in, false, fmt.Sprintf("in-process verdict %s (%s) in at least one of %d loads (verdicts seen: %s) => %s", v, clip2(verdicts[v], 300), loads, strings.Join(vs, ","), mon))
+			}
+		}
+		c.Class(fmt.Sprintf("c04/multifile/%s/%s/%s/head-%s/inc-%s/files%s/procs%d", gen, strings.Join(vs, "+"), deal, head, incPos, bucket(k), procs))
+		if i < 1 {
+			c.Sample(map[string]any{"stream": "multifile", "files": k + 1, "deal": deal, "head": head, "verdicts": vs})
 		}
 	}
 }
